@@ -165,9 +165,17 @@ struct world {
         seq = 0;
     }
 
+    // seq counts the events of the current scenario (an ordinary scenario has a few thousand, the largest about 20 000).
+    // A client that keeps producing events without end (e.g. retries without a pause inside one handler) is stopped
+    // here: the run ends with exit status 4, which tools/vlib.py treats like a crash of the client in this scenario.
     void emit(const std::string& line) {
         ++events;
         if (out && tracing) { fputs(line.c_str(), out); fputc('\n', out); }
+        if (seq > 150000) {
+            if (out) { fputs("{\"e\":\"hang\",\"n\":150002,\"t\":0,\"handlers\":-1}\n", out); fflush(out); }
+            fprintf(stderr, "simrun: scenario produced more than 150000 events (client does not come to rest)\n");
+            _exit(4);
+        }
     }
 
     disp disposition(int host) const {
